@@ -631,7 +631,7 @@ def check_c02(ctx):
     ctx.samples = [lines[0][:300], rlines[0][:400]]
     ctx.assumptions.append('C++11 release/acquire as the view-based operational semantics (RC11 without load buffering); interleaving at the granularity of API calls plus arbitrary reads-from')
     return ctx.finish()
-def race_stream(ctx):
+def race_stream(ctx, label='C03'):
     """C03 with real threads on the real macros (harness/race_harness.cpp): while consume is inside a write call, producer
     threads execute log statements - several of them the SAME statement for the first time; each thread is started when the
     previous one has finished or blocks on the session mutex.  Monitor: in what consume wrote, every event is preceded by
@@ -679,11 +679,17 @@ def race_stream(ctx):
                     if not cs:
                         what = 'an event is written before any clock sync'
                         break
+            # every statement is enabled (minimum severity trace) and executed once: exactly one event each
+            t = l.split()
+            nstmts = int(t[2]) + max(0, len(t) - 3 - int(t[2]))
+            nev = sum(1 for x in seq if x[0] == 'E')
+            if what is None and nev != nstmts:
+                what = '%d statements at or above the minimum severity were executed, %d events were written (entries: %s)' % (nstmts, nev, ','.join(seq)[:300])
         if what:
             fails += 1
             if fails <= 3:
-                ctx.violation('c03-race-%s' % hashlib.sha256(l.encode()).hexdigest()[:10],
-                              'C03: with threads executing log statements (the same statement for the first time) while consume runs: ' + what,
+                ctx.violation('%s-race-%s' % (label.lower(), hashlib.sha256(l.encode()).hexdigest()[:10]),
+                              label + ': with threads executing log statements (the same statement for the first time) while consume runs: ' + what,
                               {'kind': 'schedule', 'input_line': l, 'impl': o,
                                'how_to_read': 'race <write call of consume at which the threads start> <n threads> <site per thread> [statements executed before]; '
                                               'each thread starts when the previous one finished or blocks on the session mutex (harness/race_harness.cpp)'})
@@ -775,13 +781,19 @@ def check_c19(ctx):
         if 'events=0' in impl[i] and 'events=1' in impl[i]:
             nontrivial.add(l)
     ctx.streams['macro'] = {'cases': n, 'mismatches': len(mism)}
+    # the same macros executed by several real threads at once, some for the first time, while a consumer holds the session
+    # mutex (harness/race_harness.cpp): every statement is enabled, each must produce exactly one event that follows its source
+    if race_stream(ctx, 'C19'):
+        prop_fail.add('race')
     finish_proof(ctx, ok, bool(prop_fail))
     ctx.coverage.update({'evaluations': n, 'distinct_nontrivial': len(nontrivial), 'traces_validated_against_impl': n - len(mism),
                          'rule': 'histories of setMinSeverity (on the default session and on an explicit session; values incl. no_logs, 0, '
                                  'non-enumerator), of re-seating the thread\'s default writer onto the explicit session, '
                                  'and log statements over 48 call sites = 24 macros x {0, 2 effectful arguments}; after each '
                                  'statement both sessions are consumed and events, sources and argument evaluations are counted; '
-                                 'non-trivial = history with both enabled and disabled statements; distinct by history'})
+                                 'non-trivial = history with both enabled and disabled statements; distinct by history; plus the real-thread '
+                                 'stream of C03 (several threads execute enabled statements, some for the first time, while a consumer '
+                                 'holds the session mutex): one event per statement, each after its source'})
     ctx.samples = [lines[0][:300]]
     return ctx.finish()
 
